@@ -179,11 +179,17 @@ def _prepare(crate_dir, name):
 def _write_main(crate_dir, prefix, entries, with_main, nonce=0):
     """entries: list of (index, literal text). One `const <prefix><i>` per entry, each starting on its
     own line. Returns (starts, ends, idxs): first / last source line of every entry."""
-    parts = [HEADER]
-    line = HEADER.count("\n") + 1
+    # the macro documents that it also accepts a literal forwarded through a macro_rules `$x:expr`
+    # capture (it arrives wrapped in a None-delimited group): every third valid literal goes that way
+    FWD = "macro_rules! fwd { ($p:expr) => { pelite::pattern!($p) }; }\n"
+    parts = [HEADER, FWD]
+    line = HEADER.count("\n") + FWD.count("\n") + 1
     starts, ends, idxs = [], [], []
-    for i, text in entries:
-        item = "const %s%d: &[Atom] = pelite::pattern!(%s);\n" % (prefix, i, text)
+    for n, (i, text) in enumerate(entries):
+        if with_main and n % 3 == 1:
+            item = "const %s%d: &[Atom] = fwd!(%s);\n" % (prefix, i, text)
+        else:
+            item = "const %s%d: &[Atom] = pelite::pattern!(%s);\n" % (prefix, i, text)
         starts.append(line)
         line += item.count("\n")
         ends.append(line - 1)
